@@ -156,3 +156,9 @@ fragment_base = create_dialect({"w": (1.0, float), "x": (None, str)}, accept_kwa
 _fragment_node_parser = partial(_parse_dialect_string,
                                 dialect_signature=fragment_base,
                                 arg_to_fullname = {"w": "weight", "x": "chiral"})
+# the nodes of a coarse fragment are nodes of a CGsmiles graph; the
+# name is stripped before so the annotations are those of the base dialect
+cg_fragment_base = create_dialect({"q": (0.0, float), "w": (1.0, float)}, accept_kwargs=True)
+_cg_fragment_node_parser = partial(_parse_dialect_string,
+                                   dialect_signature=cg_fragment_base,
+                                   arg_to_fullname = {"w": "weight", "q": "charge"})
